@@ -378,13 +378,13 @@ pub fn swarm(prop: Prop, r: &mut Rng, pools: &Pools, corpus_len: usize) -> Swarm
             nops = r.range(15, 120);
         }
         Prop::C03 => {
-            profile = *r.pick(&["repeat", "setter_histories", "clone_heavy", "generators", "failed_ops_heavy", "mixed"]);
-            w.load = 4;
+            profile = *r.pick(&["repeat", "setter_histories", "clone_heavy", "generators", "failed_ops_heavy", "mixed", "engine_churn"]);
+            w.load = if profile == "engine_churn" { 14 } else { 4 };
             w.set = if profile == "setter_histories" { 25 } else { 8 };
             w.set_target = if profile == "setter_histories" { 30 } else { 12 };
             w.clone = if profile == "clone_heavy" { 15 } else { 4 };
             w.clone_from = if profile == "clone_heavy" { 8 } else { 2 };
-            w.dropengine = 1;
+            w.dropengine = if profile == "engine_churn" { 12 } else { 1 };
             w.synth = 30;
             w.synthbad = if profile == "failed_ops_heavy" { 15 } else { 3 };
             w.setw_valid = 3;
@@ -515,7 +515,7 @@ impl Gen {
         if occupied_e.is_empty() {
             let e = self.r.below(3);
             let voices = self.voices_for_load();
-            let via_files = self.r.chance(0.05);
+            let via_files = self.r.chance(if self.sw.profile == "engine_churn" { 0.8 } else { 0.1 });
             return TOp { task, op: Op::Load { e, voices, via_files } };
         }
         let w = self.sw.w.clone();
@@ -548,7 +548,7 @@ impl Gen {
             0 => {
                 let e = self.r.below(MAX_ENGINES.min(4));
                 let voices = self.voices_for_load();
-                Op::Load { e, voices, via_files: self.r.chance(0.05) }
+                Op::Load { e, voices, via_files: self.r.chance(if self.sw.profile == "engine_churn" { 0.8 } else { 0.1 }) }
             }
             1 => Op::CloneEngine { src: e, dst: self.r.below(MAX_ENGINES) },
             2 => Op::DropEngine { e },
